@@ -111,11 +111,13 @@ class MergeModel(object):
             return fid
         if s == "merge":
             idx = [i for i, f in enumerate(FIELDS) if f not in self.force]
-            hit = None
-            for cand in [key] + self.dups.get(key, []):
-                if cand in self.store and all(self.store[cand]["cols"][i] == rec["cols"][i] for i in idx):
-                    hit = cand
-                    break
+            hits = [cand for cand in [key] + self.dups.get(key, [])
+                    if cand in self.store and all(self.store[cand]["cols"][i] == rec["cols"][i] for i in idx)]
+            if len(hits) > 1:
+                # two stored features under one requested key agree with the newcomer (possible only
+                # after a replace made them equal): the statement does not say which one receives it
+                raise ModelAmbiguous("candidates %r all match" % (hits,))
+            hit = hits[0] if hits else None
             if hit is None:
                 fid = self._fresh(key)
                 self.dups.setdefault(key, []).append(fid)
@@ -162,4 +164,8 @@ class MergeModel(object):
 
 
 class ModelError(Exception):
+    pass
+
+
+class ModelAmbiguous(Exception):
     pass
